@@ -107,3 +107,38 @@ func C1Prime() *x509.Certificate {
 func CertPEM(c *x509.Certificate) []byte {
 	return pem.EncodeToMemory(&pem.Block{Type: "CERTIFICATE", Bytes: c.Raw})
 }
+
+// CA is a certificate authority certificate (key 2) used to issue leaf
+// certificates whose issuer differs from their subject.
+func CA() *x509.Certificate {
+	if c, ok := certCache.Load("ca"); ok {
+		return c.(*x509.Certificate)
+	}
+	tmpl := &x509.Certificate{SerialNumber: big.NewInt(0x7001), Subject: pkix.Name{CommonName: "verif issuing CA", Organization: []string{"verif-ca"}},
+		NotBefore: NotBefore, NotAfter: NotAfter, IsCA: true, BasicConstraintsValid: true, KeyUsage: x509.KeyUsageCertSign, SignatureAlgorithm: x509.SHA256WithRSA}
+	der, err := x509.CreateCertificate(rand.Reader, tmpl, tmpl, &K(2).PublicKey, K(2))
+	if err != nil {
+		panic(err)
+	}
+	c, _ := x509.ParseCertificate(der)
+	certCache.Store("ca", c)
+	return c
+}
+
+// Leaf returns a certificate for key n issued by CA(): issuer != subject.
+func Leaf(n int) *x509.Certificate {
+	key := "leaf" + string(rune('0'+n))
+	if c, ok := certCache.Load(key); ok {
+		return c.(*x509.Certificate)
+	}
+	tmpl := &x509.Certificate{SerialNumber: big.NewInt(int64(0x7100 + n)), Subject: pkix.Name{CommonName: "verif leaf k" + string(rune('0'+n))},
+		NotBefore: NotBefore, NotAfter: NotAfter, KeyUsage: x509.KeyUsageDigitalSignature, ExtKeyUsage: []x509.ExtKeyUsage{x509.ExtKeyUsageCodeSigning},
+		BasicConstraintsValid: true, SignatureAlgorithm: x509.SHA256WithRSA}
+	der, err := x509.CreateCertificate(rand.Reader, tmpl, CA(), &K(n).PublicKey, K(2))
+	if err != nil {
+		panic(err)
+	}
+	c, _ := x509.ParseCertificate(der)
+	certCache.Store(key, c)
+	return c
+}
